@@ -115,6 +115,8 @@ def approval_edges(repo: Repo, f: Func, cfg: CFG, want, notes: list) -> List[Tup
 
 # ------------------------------------------------------------------- the rules
 
+from .common import stale_bindings
+
 
 def check(repo: Repo, rep, tier):
     rep.not_decided = "parsing of the flag strings, Confirm.ask itself, TOML reading; that an applied change does what its category says (C05)"
@@ -126,6 +128,7 @@ def check(repo: Repo, rep, tier):
     inactive(repo, rep)
     driver_filter(repo, rep)
     flags_not_approval(repo, rep)
+    stale_bindings(repo, rep, None, "e.g. a copied state/config object keeps the flags of import time, so approval decisions are taken on stale data")
 
 
 WRITER_TABLE = {
